@@ -226,6 +226,49 @@ func structured(kind string, n, param int) ([][]int, error) {
 				adj[i] = append(adj[i], i+step, i+step)
 			}
 		}
+	case "selfloops-path": // a path whose every param-th node (and nodes 1023..1025, 2047..2049) lists a self-loop FIRST
+		step := param
+		if step < 1 {
+			step = 1
+		}
+		for i := 0; i < n; i++ {
+			near := false
+			for _, b := range []int{1024, 2048, 4096, 8192, 16384, 32768, 65536} {
+				if i >= b-1 && i <= b+1 {
+					near = true
+				}
+			}
+			if i%step == 0 || near {
+				adj[i] = append(adj[i], i)
+			}
+			if i+1 < n {
+				adj[i] = append(adj[i], i+1)
+			}
+		}
+	case "lcg-random": // sparse pseudo-random multigraph (about two out-edges, self-loops and parallel edges
+		// included) over a backbone path, drawn from a linear congruential sequence seeded by param
+		x := uint64(param)*2654435761 + 12345
+		next := func(m int) int {
+			x = x*6364136223846793005 + 1442695040888963407
+			return int((x >> 33) % uint64(m))
+		}
+		for i := 0; i < n; i++ {
+			for k := next(4); k > 0; k-- {
+				switch next(8) {
+				case 0:
+					adj[i] = append(adj[i], i)
+				case 1:
+					if len(adj[i]) > 0 {
+						adj[i] = append(adj[i], adj[i][0])
+					}
+				default:
+					adj[i] = append(adj[i], next(n))
+				}
+			}
+			if i+1 < n {
+				adj[i] = append(adj[i], i+1)
+			}
+		}
 	case "reversed-path": // high ids first: node n-1 is the root
 		for i := n - 1; i > 0; i-- {
 			adj[i] = []int{i - 1}
